@@ -16,7 +16,8 @@ def _crit(kind):
     return ("dist", [real(f"crit_max_d_{i}", 0, 200) for i in range(n)], [real(f"crit_min_d_{i}", 0, 50) for i in range(n)])
 
 
-def accounting(frame, ego_q, n, m, policy, crit_kind, e_labels, g_labels, sym_thr=True, pf_reversed=False):
+def accounting(frame, ego_q, n, m, policy, crit_kind, e_labels, g_labels, sym_thr=True, pf_reversed=False,
+               task="detection"):
     pose = S.Pose(frame, ego_q)
     crit = _crit(crit_kind)
     if not sym_thr:  # keep the larger scenes linear: concrete pass/fail thresholds
@@ -32,7 +33,8 @@ def accounting(frame, ego_q, n, m, policy, crit_kind, e_labels, g_labels, sym_th
     gts = [S.SObj(f"g{j}", pose, choose(f"g{j}_label", g_labels), real(f"g{j}_ego_x", -150, 150), lane_g(j),
                   is_gt=True) for j in range(m)]
     # pf_reversed: the pass/fail config lists the labels in the other order than the critical filter (same thresholds per label)
-    fr, all_results = S.run_frame(pose, ests, gts, TARGETS, policy, crit, thr, pf_reversed=pf_reversed)
+    fr, all_results = S.run_frame(pose, ests, gts, TARGETS, policy, crit, thr, pf_reversed=pf_reversed, task=task,
+                                  metrics={} if task == "fp_validation" else None)
     p = fr.pass_fail_result
     eo = {id(e.obj): e for e in ests}
     go = {id(g.obj): g for g in gts}
@@ -54,6 +56,9 @@ def accounting(frame, ego_q, n, m, policy, crit_kind, e_labels, g_labels, sym_th
     pair_of = {id(r.estimated_object): r.ground_truth_object for r in all_results}
     keep_res = {}
     for k, c in crit_e.items():
+        if k not in pair_of:  # false-positive validation: the matcher dropped this unpaired estimate (C01)
+            keep_res[k] = False
+            continue
         g = pair_of.get(k)
         keep_res[k] = L.And(c, crit_g[id(g)]) if g is not None else c
     parts["result_kept_iff_both_members_critical"] = L.And(*[L.Iff(k in surv, c) for k, c in keep_res.items()])
@@ -118,6 +123,9 @@ def obligations(pid, tier):
                                       e_labels=[CAR] if small else [CAR, PED], g_labels=[CAR, FP] if small else [CAR, PED, FP]))
     cases += [dict(c, pf_reversed=True) for c in cases if c["n"] + c["m"] <= 2 and c["frame"] == "base_link"
               and c["crit_kind"] == "xy"]
+    # false-positive validation task (unpaired estimates are dropped by the matcher; no detection metrics)
+    cases += [dict(c, task="fp_validation") for c in cases if c["crit_kind"] == "xy" and c["policy"] == "default"
+              and not c.get("pf_reversed") and (c["n"], c["m"]) in ((1, 1), (2, 1), (1, 2))]
     return [Obligation("accounting", accounting, cases=cases, extras=S.frame_extras,
                        desc="PerceptionFrameResult.evaluate_frame / PassFailResult: conservation, critical region, TP rule")]
 
